@@ -418,8 +418,13 @@ class Interp:
                         # exact evaluation on literals: the debug-profile overflow check would fire here
                         outs.append(Out('div', UNIT, s.event(('overflow', op, a, b, e))))
                         continue
-                outs.append(Out('val', r, s))
+                outs.append(Out('val', self.arith_result(op, r, e.get('ty')), s))
         return outs + abn
+
+    def arith_result(self, op, r, ty):
+        """The term of a built-in binary operation computed in type `ty`.  Terms carry no types; an interpreter that has to reason
+        about wrap-around (rules/framelen.py) overrides this to record the type the operation is computed in."""
+        return r
 
     def ev_Field(self, e, st):
         outs = []
@@ -558,8 +563,9 @@ class Interp:
                     outs.append(Out('val', ('lit', a[1][lo:hi]), s))
                 else:
                     outs.append(Out('div', UNIT, s.event(('panic', 'slice index out of range', (a, b), e))))
-            elif self.exact_seqs and a[0] in ('vec', 'array') and ground(a) and b[0] == 'lit' and isinstance(b[1], int) and not isinstance(b[1], bool):
-                # a vector whose elements are all known, at a literal position: the element, or the bounds-check panic
+            elif ((self.exact_seqs and a[0] == 'vec' and ground(a)) or a[0] == 'array') and b[0] == 'lit' and isinstance(b[1], int) and not isinstance(b[1], bool):
+                # an array expression (or, with exact_seqs, a vector whose elements are all known) at a literal position: that element,
+                # or the bounds-check panic
                 if 0 <= b[1] < len(a[1]):
                     outs.append(Out('val', a[1][b[1]], s))
                 else:
@@ -1041,7 +1047,7 @@ class Interp:
         res, abn = self.seq([e['l'], e['r']], st)
         for (a, b), s in res:
             op = e['op'].replace('Assign', '')
-            outs.extend(self.assign(e['l'], bin_term(op, a, b), s, e))
+            outs.extend(self.assign(e['l'], self.arith_result(op, bin_term(op, a, b), e['l'].get('ty')), s, e))
         return outs + abn
 
     def assign(self, lhs, val, st, node):
@@ -1316,18 +1322,29 @@ class Interp:
                         outs.append(o)
             return outs
         if cal.endswith('::copy_from_slice') and len(e['args']) == 1:
-            # dst[a..b].copy_from_slice(src) on a local byte array whose content is literal: evaluated exactly
+            # dst[a..b].copy_from_slice(src) on a local array whose length is known, from a sequence whose length is known (the elements
+            # themselves may be symbolic): the elements a..b-1 are replaced one by one; a length mismatch is the method's panic
             recv = hirq.peel_refs(e['recv'])
             tgt, rng = (recv['e'], recv['idx']) if recv['k'] == 'Index' else (recv, None)
             tgt = hirq.peel_refs(tgt)
             if tgt['k'] == 'Path' and tgt.get('res') == 'local':
                 cur = st.env.get(tgt['bind'])
-                if cur is not None and cur[0] == 'lit' and isinstance(cur[1], bytes):
+                def elems(v):
+                    # the elements of a sequence value of known length: literal bytes, or an array expression (elements may be symbolic)
+                    if v is not None and v[0] == 'lit' and isinstance(v[1], bytes):
+                        return [('lit', x) for x in v[1]]
+                    if v is not None and v[0] == 'array':
+                        return list(v[1])
+                    return None
+                def seqval(es):
+                    return ('lit', bytes(x[1] for x in es)) if all(x[0] == 'lit' and isinstance(x[1], int) and 0 <= x[1] < 256 for x in es) else ('array', tuple(es))
+                if elems(cur) is not None:
                     res, abn = self.seq(([rng] if rng is not None else []) + [e['args'][0]], st)
                     outs = []
                     for vals, s in res:
                         src = vals[-1]
-                        lo, hi = 0, len(cur[1])
+                        cur_es = elems(cur)
+                        lo, hi = 0, len(cur_es)
                         okr = True
                         if rng is not None:
                             b = vals[0]
@@ -1335,14 +1352,15 @@ class Interp:
                                     and all(v[0] == 'lit' and isinstance(v[1], int) for n_, v in b[2]):
                                 fl = dict(b[2])
                                 lo = fl['start'][1] if 'start' in fl else 0
-                                hi = fl['end'][1] if 'end' in fl else len(cur[1])
+                                hi = fl['end'][1] if 'end' in fl else len(cur_es)
                             else:
                                 okr = False
-                        if okr and src[0] == 'lit' and isinstance(src[1], bytes):
-                            if not (0 <= lo <= hi <= len(cur[1])) or hi - lo != len(src[1]):
+                        src_es = elems(src)
+                        if okr and src_es is not None:
+                            if not (0 <= lo <= hi <= len(cur_es)) or hi - lo != len(src_es):
                                 outs.append(Out('div', UNIT, s.event(('panic', cal, (cur, src), e))))
                             else:
-                                outs.append(Out('val', UNIT, s.set(tgt['bind'], ('lit', cur[1][:lo] + src[1] + cur[1][hi:]))))
+                                outs.append(Out('val', UNIT, s.set(tgt['bind'], seqval(cur_es[:lo] + src_es + cur_es[hi:]))))
                         else:
                             outs.append(Out('val', UNIT, s.set(tgt['bind'], ('unk', 'copy_from_slice')).event(('call', cal, tuple(vals), e))))
                     return outs + abn
@@ -2216,6 +2234,10 @@ def builtin_summary(I, cal, args, node, st):
             return [Out('val', ('vec', arr[0][1]), st)]
     if cal.endswith('alloc::vec::Vec::<T>::new') or cal.endswith('alloc::vec::Vec::<T>::with_capacity'):
         return [Out('val', ('vec', ()), st)]
+    if name == 'get' and cal.startswith('core::slice::<impl [T]>::') and len(args) == 2 and args[0][0] == 'array' \
+            and args[1][0] == 'lit' and isinstance(args[1][1], int) and not isinstance(args[1][1], bool):
+        # slice.get(k) on a sequence whose elements are known: Some(element k) when k is in range, None otherwise
+        return [Out('val', ('ctor', 'Some', (args[0][1][args[1][1]],)) if 0 <= args[1][1] < len(args[0][1]) else ('ctor', 'None', ()), st)]
     if name in ('is_empty', 'len') and args and args[0][0] == 'array':
         return [Out('val', ('lit', len(args[0][1]) == 0 if name == 'is_empty' else len(args[0][1])), st)]
     if name in ('min', 'max') and len(args) == 2 and all(a[0] == 'lit' and isinstance(a[1], int) and not isinstance(a[1], bool) for a in args) \
